@@ -1,4 +1,6 @@
 import GoRedisModel.Proofs.Spec
+import GoRedisModel.Proofs.ExStore
+import GoRedisModel.Generated.Facts
 /-! # C18 — the bundled example store returns what was stored
 
 The example store is tied, reply for reply, to the reference store `refHandle` (Model/RefStore) by the
@@ -217,6 +219,103 @@ theorem zInsert_mem (x : Int × Bytes) (l : List (Int × Bytes)) (y : Int × Byt
         · exact Or.inr (Or.inl h)
         · exact Or.inl h
         · exact Or.inr (Or.inr h)
+
+/-! ## The example store's own algorithms refine the reference store
+
+`Model/ExStore` transcribes the loops of `examples/go-redisd/server/{list,set,zset}.go` (scan for the member, splice it
+out, search the insertion position, pop element by element, clamp the index range).  The theorems below say that, on
+containers that satisfy the store's invariant (no duplicates / one entry per member), every one of them computes
+exactly what the reference store defines - for every container, every argument list and every index, count, offset and
+limit - and keeps the invariant.  Together with the correspondence check (example server = reference store, reply for
+reply) this ties the property's "equals a reference Redis model" to the algorithms as they are written. -/
+
+/-- LRANGE / the window of ZRANGE: `clampRange` + slice expression = Redis index normalisation -/
+theorem C18_ex_range (l : List Bytes) (start stop : Int) : Ex.range l start stop = rangeSlice l start stop :=
+  Ex.range_eq l start stop
+
+theorem C18_ex_lindex (l : List Bytes) (i : Int) : Ex.index l i = (rangeSlice l i i).head? := Ex.index_eq l i
+
+/-- LPOP / RPOP with any count: the pop loops take what `refHandle` takes and leave what it leaves -/
+theorem C18_ex_lpop (l : List Bytes) (n : Nat) : Ex.lpopLoop n l [] = (l.take n, l.drop n) := Ex.lpopLoop_eq n l
+theorem C18_ex_rpop (l : List Bytes) (n : Nat) : Ex.rpopLoop n l [] = (l.reverse.take n, l.take (l.length - n)) :=
+  Ex.rpopLoop_eq n l
+theorem C18_ex_lpush (l es : List Bytes) : Ex.lpush l es = es.reverse ++ l := Ex.lpush_eq l es
+
+/-- LIMIT offset count (any 64-bit values, negative ones included) -/
+theorem C18_ex_limit (l : List (Int × Bytes)) (offset count : Int) : Ex.limit l offset count = limitSlice l offset count :=
+  Ex.limit_eq l offset count
+
+/-- ZRANGEBYSCORE: the selection loop with its four exclusive/inclusive comparisons and LIMIT is `refHandle`'s -/
+theorem C18_ex_zrangebyscore (k : Bytes) (lo hi : UInt64) (o : ZRangeOpt) (s : Store) (cur : List (Int × Bytes)) (l h : Bound)
+    (hk : s.get k = some (.zset cur)) (hl : sc lo = some l) (hh : sc hi = some h) :
+    (refHandle sc (.zrangebyscore k lo hi o) s).1 =
+      okRes (zMembers o.withscores (Ex.zRangeByScore cur l h o.minex o.maxex o.offset o.count)) := by
+  simp [refHandle, hk, hl, hh, Ex.zRangeByScore_eq]
+
+/-- ZRANGE by index, REV included (no LIMIT clause) -/
+theorem C18_ex_zrange (cur : List (Int × Bytes)) (start stop : Int) (rev : Bool) :
+    Ex.zRange cur start stop rev 0 (-1) = rangeSlice (if rev then cur.reverse else cur) start stop :=
+  Ex.zRange_eq cur start stop rev
+
+/-- **ZADD**: for every list of (score, member) pairs the loops of `ZSet.Add` leave the entries `refHandle` defines and
+count the same new members -/
+theorem C18_ex_zadd (k : Bytes) (ms : List (UInt64 × Bytes)) (o : ZAddOpt) (s : Store) (cur : List (Int × Bytes))
+    (hk : s.get k = some (.zset cur)) (hd : (cur.map Prod.snd).Nodup) :
+    refHandle sc (.zadd k ms o) s =
+      (intRes ((Ex.zAdd cur (decodeScores sc ms)).2 : Int), s.putOrDrop k (.zset (Ex.zAdd cur (decodeScores sc ms)).1)) := by
+  have h := Ex.zAdd_eq cur (decodeScores sc ms) hd
+  simp only [refHandle, hk, Ex.zaddStep_fold]
+  rw [h.1, h.2]
+
+/-- … and keep "one entry per member" -/
+theorem C18_ex_zadd_invariant (cur xs : List (Int × Bytes)) (hd : (cur.map Prod.snd).Nodup) :
+    ((Ex.zAdd cur xs).1.map Prod.snd).Nodup := by
+  rw [(Ex.zAdd_eq cur xs hd).1]
+  exact Ex.refZAdd_distinct xs (0, cur) hd
+
+/-- **ZREM** -/
+theorem C18_ex_zrem (k : Bytes) (ms : List Bytes) (s : Store) (cur : List (Int × Bytes))
+    (hk : s.get k = some (.zset cur)) (hd : (cur.map Prod.snd).Nodup) :
+    refHandle sc (.zrem k ms) s = (intRes ((Ex.zRem cur ms).2 : Int), s.putOrDrop k (.zset (Ex.zRem cur ms).1)) := by
+  have hany : ∀ m, (cur.any fun q => q.2 == m) = (cur.map Prod.snd).contains m := by
+    intro m
+    rw [Bool.eq_iff_iff]
+    simp only [List.any_eq_true, List.contains_iff_mem, List.mem_map, beq_iff_eq]
+  simp only [refHandle, hk, Ex.zRem_eq cur ms hd, hany]
+  rw [Ex.gone_filter Prod.snd cur ms, Ex.gone_length Prod.snd cur ms hd]
+
+/-- **SREM** -/
+theorem C18_ex_srem (k : Bytes) (ms : List Bytes) (s : Store) (cur : List Bytes)
+    (hk : s.get k = some (.set cur)) (hd : cur.Nodup) :
+    refHandle sc (.srem k ms) s = (intRes ((Ex.setRem cur ms).2 : Int), s.putOrDrop k (.set (Ex.setRem cur ms).1)) := by
+  have h1 := Ex.gone_filter (fun x : Bytes => x) cur ms
+  have h2 := Ex.gone_length (fun x : Bytes => x) cur ms (by simpa using hd)
+  simp only [List.map_id'] at h1 h2
+  simp only [refHandle, hk, Ex.setRem_eq cur ms hd]
+  rw [h1, h2]
+
+/-- **SADD** keeps a set free of duplicates and holds exactly the old and the new members -/
+theorem C18_ex_sadd (cur ms : List Bytes) (hd : cur.Nodup) :
+    (Ex.setAdd cur ms).1.Nodup ∧ (Ex.setAdd cur ms).2 = (Ex.setAdd cur ms).1.length - cur.length := by
+  rw [Ex.setAdd_eq]
+  exact ⟨Ex.freshMembers_nodup cur ms hd, by simp⟩
+
+/-- **ZINCRBY** -/
+theorem C18_ex_zincrby (cur : List (Int × Bytes)) (d : Int) (m : Bytes) (hd : (cur.map Prod.snd).Nodup) :
+    Ex.zIncBy cur d m =
+      (zInsert ((cur.find? fun q => q.2 == m).elim 0 Prod.fst + d, m) (cur.filter fun q => q.2 != m),
+       (cur.find? fun q => q.2 == m).elim 0 Prod.fst + d) := Ex.zIncBy_eq cur d m hd
+
+/-- **The source is the one that was transcribed** (regenerated on every run): the container algorithms of
+`examples/go-redisd/server/{list,set,zset}.go` have the fingerprints `Model/ExStore` was written from -/
+theorem C18_source_is_the_modelled_one :
+    Generated.exStoreFingerprints = Ex.modelled.map (fun e => (e.1, e.2.1)) := by decide
+
+/-- non-vacuity: the loops on a concrete sorted set (a member moved to a tie, an unknown member removed) -/
+example : Ex.zAdd [(2, b!"a"), (4, b!"b")] [(4, b!"a"), (1, b!"c"), (4, b!"a")] = ([(1, b!"c"), (4, b!"a"), (4, b!"b")], 1) ∧
+    Ex.zRem [(2, b!"a"), (4, b!"b")] [b!"zz", b!"a", b!"a"] = ([(4, b!"b")], 1) ∧
+    Ex.range [b!"a", b!"b", b!"c"] (-2) 9223372036854775807 = [b!"b", b!"c"] ∧
+    Ex.rpopLoop 2 [b!"a", b!"b", b!"c"] [] = ([b!"c", b!"b"], [b!"a"]) := by decide
 
 /-! ## Non-vacuity: a program, evaluated on the reference store -/
 def noScores : ScoreTable := fun _ => none
